@@ -103,7 +103,8 @@ func mkVectorTargetM(kind int, r *rand.Rand, hnswM int) target {
 		},
 		probe: func(i int) string {
 			q := idx.NewSearch().WithQuery(vecOf(uint32(7*i+3), dim)).WithK(0).WithNProbes(100).WithEfSearch(100000)
-			if i%2 == 1 {
+			switch i % 4 {
+			case 1:
 				// a large id restriction that excludes nothing (its construction sits between the graph
 				// walk and the use of its result)
 				all := make([]uint32, 0, 16000)
@@ -113,6 +114,21 @@ func mkVectorTargetM(kind int, r *rand.Rand, hnswM int) target {
 					}
 				}
 				q = q.WithDocumentIDs(all...)
+			case 2:
+				// restrictions that differ from probe to probe: a restriction object handed to two
+				// searches at once would show as one search answering inside the other's restriction
+				sel := make([]uint32, 0, 6000)
+				for g := 0; g < 16; g++ {
+					for j := 1; j <= 1000; j++ {
+						if (j+i/4)%3 == 0 {
+							sel = append(sel, uint32(g*100000+j))
+						}
+					}
+				}
+				q = q.WithDocumentIDs(sel...)
+			case 3:
+				// a restriction to ids the index does not hold: the empty answer takes the early ways out
+				q = q.WithDocumentIDs(4000000001, 4000000002, uint32(4000000003+i))
 			}
 			res, err := q.Execute()
 			return fingerprintVec(res, err)
